@@ -53,7 +53,7 @@ def sh(cmd, cwd=None, timeout=None, env=None, input=None):
 # ------------------------------------------------------------------------------------------------
 
 # seconds a line-protocol driver may take for one request before it is killed (C04: a hang is a result, not a wait)
-LINE_TIMEOUT = 240
+LINE_TIMEOUT = 90
 
 
 def regen_tables():
